@@ -1044,6 +1044,9 @@ class Client():
             method = redirect.get('method')
 
             host = coring.normalizeHost(hostname)
+            if ':' in host:  # tcp.Client is AF_INET only, connect would raise on every service
+                raise ValueError("Attempt to redirect to unsupported IPv6 "
+                                 "host '{0}'".format(location))
             ha = (host, port)
             if ha != self.connector.ha or scheme != self.requester.scheme:
                 if self.requester.scheme == 'https' and scheme != 'https':
